@@ -257,6 +257,11 @@ class Repo:
                 for (m, n), fi in self.module_funcs.items():
                     if n == f.id and (mod is None or m == mod):
                         return fi.node, None, None
+                # a function of another module of the package, imported by name (the only one so named)
+                cands = [fi for (m, n), fi in self.module_funcs.items() if n == f.id]
+                if len(cands) == 1 and mod is not None and any(
+                        isinstance(st_, ast.ImportFrom) and any((a_.asname or a_.name) == f.id for a_ in st_.names) for st_ in self.modules[mod]['tree'].body):
+                    return cands[0].node, None, None
             return None
 
         return resolve
